@@ -83,12 +83,7 @@ def main(argv):
     # 4. run the implementation
     if hasattr(mod, "setup_impl"):
         mod.setup_impl()
-    results = []
-    for c in cases:
-        try:
-            results.append(mod.run_impl(c))
-        except BaseException as e:            # the harness itself must not die on a raising implementation
-            results.append({"raise": type(e).__name__, "msg": str(e)[:200]})
+    results = [guarded_run(mod, c) for c in cases]
 
     # 5. evaluate model + spec checker in Coq
     bad_codes, errors, _raw = {}, [], {}
@@ -235,8 +230,7 @@ def shrink_case(mod, work, case, result, rounds=8):
             break
         rs = []
         for c in cands:
-            try: rs.append(mod.run_impl(c))
-            except BaseException as e: rs.append({"raise": type(e).__name__})
+            rs.append(guarded_run(mod, c))
         terms = [mod.coq_case(c, r) for c, r in zip(cands, rs)]
         bad, errors, _ = common.run_coq_cases(work, mod.COQ_HEADER, mod.COQ_RUN, mod.COQ_CASE_TYPE, terms, tag="shrink")
         failing = [i for i in sorted(bad) if bad[i] & 2]
@@ -245,6 +239,27 @@ def shrink_case(mod, work, case, result, rounds=8):
         cur, cur_r = cands[failing[0]], rs[failing[0]]
         cur["family"] = str(case.get("family")) + "/shrunk"
     return cur, cur_r
+
+
+class CaseTimeout(BaseException):
+    pass
+
+def guarded_run(mod, c):
+    """run the implementation on one case; a raising or non-returning implementation becomes a result, not a dead harness.
+    The per-case limit (default 60 s; ordinary cases take milliseconds) only matters for changed code that loops."""
+    import signal
+    limit = float(os.environ.get("VERIF_CASE_TIMEOUT", "60"))
+    def on_alarm(sig, frm):
+        raise CaseTimeout("implementation did not return within %g s" % limit)
+    old = signal.signal(signal.SIGALRM, on_alarm)
+    signal.setitimer(signal.ITIMER_REAL, limit)
+    try:
+        return mod.run_impl(c)
+    except BaseException as e:
+        return {"raise": type(e).__name__, "msg": str(e)[:200]}
+    finally:
+        signal.setitimer(signal.ITIMER_REAL, 0)
+        signal.signal(signal.SIGALRM, old)
 
 
 if __name__ == "__main__":
